@@ -403,6 +403,59 @@ def h_decimal(e, form, nsigns, follow):
     e.check(ok, 'readDecimal did not consume exactly the literal', 'decimal-consumed')
 
 
+def h_dimglue(e, stretch, shrink, follow):
+    """<optional signs><internal dimen> [plus ..] [minus ..]: a dimen register is only the natural size of a glue"""
+    doc = _doc()
+    doc.context.newdimen('da')
+    dv = e.real('da')
+    e.assume(api.and_(dv <= 2 ** 30, dv >= -2 ** 30))
+    if e.symbolic:
+        from sxv.core import RealProxy
+        doc.context['da'].value = RealProxy(plasTeX.dimen, dv)
+    else:
+        doc.context['da'].value = plasTeX.dimen(dv)
+    s = e.char('s', 32, 45)
+    e.assume(e.one_of(s, '+- '))
+    chars = [s] + list('\\da')
+    exp = {}
+    for kw, kind, pfx in (('plus', stretch, 'p'), ('minus', shrink, 'm')):
+        if kind:
+            c, n, d = _decimal(e, 'D', pfx)
+            chars.extend(list(' ' + kw + ' ') + c + list(kind))
+            exp['stretch' if kw == 'plus' else 'shrink'] = (n, d, FILS.get(kind, 0))
+    chars += list(follow) + ['|']
+    tex = TeX(doc)
+    tex.input(Src(chars))
+    lvl = plasTeX.ParameterCommand._enablelevel
+    try:
+        g = tex.readGlue()
+        rest = _rest(tex)
+    except (ValueError, TypeError, IndexError, AttributeError) as ex:
+        e.fail_exception(ex)
+        return
+    e.check(plasTeX.ParameterCommand._enablelevel == lvl, 'parameter-enable level not restored by readGlue', 'enable-level')
+    e.nontriv()
+    sign = -1 if eq(s, '-') else 1
+    e.check(g == sign * dv, 'glue from an internal dimen: natural size / sign', 'glue-value:dimen-register')
+    for key in ('stretch', 'shrink'):
+        got = getattr(g, key, None)
+        if key not in exp:
+            e.check(got is None, 'glue %s present though not written' % key, 'glue-%s:dimen-register' % key)
+            continue
+        n, d, order = exp[key]
+        ok = got is not None
+        if ok:
+            dd = got * d - (n + order * 10 ** 9 * d) if order else got * d - n * 65536
+            ok = api.and_(dd <= 12 * d, dd >= -12 * d)
+        e.check(ok, 'the %s part written after an internal dimen is lost (left in the stream)' % key, 'glue-%s:dimen-register' % key)
+    suffix = list(follow.lstrip(' ')) + ['|'] if not exp else None
+    if suffix is not None:
+        e.check(_same_tokens(rest, _tokens_of(suffix)), 'register read consumed more than the register', 'glue-consumed:dimen-register')
+    else:
+        consumed = len(chars) - len(follow) - 1 + (1 if follow.startswith(' ') else 0)
+        e.check(_same_tokens(rest, _tokens_of(chars[consumed:])), 'readGlue did not consume exactly the glue specification', 'glue-consumed:dimen-register')
+
+
 def h_gluereg(e, kind, stretch, shrink, follow):
     """<optional signs><internal glue>: all three components of the register, with the sign applied to each"""
     doc = _doc()
@@ -977,6 +1030,9 @@ def jobs(tier, seed):
                 if q and f not in FOLLOW_CS[:3] and (st, sh) != ('pt', 'fil'):
                     continue
                 J.append(dict(harness='h_gluereg', params=dict(kind=kind, stretch=st, shrink=sh, follow=f), label='%sreg %s %s %r' % (kind, st, sh, f), no_twin=True))
+    for st, sh in ((None, None), ('pt', None), ('fil', 'pt'), (None, 'fill')):
+        for f in (FOLLOW_CS[:3] if (st, sh) == (None, None) else FOLLOW[:3]):
+            J.append(dict(harness='h_dimglue', params=dict(stretch=st, shrink=sh, follow=f), label='glue from dimen register %s %s %r' % (st, sh, f), no_twin=True))
     forms = DEC_FORMS[:5] if q else DEC_FORMS
     for form in forms:
         for ns in ((0, 1, 2) if q else (0, 1, 2, 3)):
